@@ -10,6 +10,7 @@
 import VrlProofs.Lemmas.C32
 import VrlProofs.Lemmas.C32Cycle
 import VrlProofs.Lemmas.C32Source
+import VrlProofs.Lemmas.C32Match
 
 namespace C32
 open Grok Rx
@@ -139,6 +140,52 @@ theorem circular_has_cycle (P : Prims) (aliases : List (Str × Str)) (rule x : S
   simp only [Ctx.empty, List.nil_append] at hx
   cases pre <;> simp_all
 
+/-- the decidable test the `o.c32.cyc` oracle evaluates (a closure computation, independent of the
+    depth-first expansion) only reports real cycles … -/
+theorem cycleReachable_sound (P : Prims) (aliases : List (Str × Str)) (text : Str)
+    (h : cycleReachable P aliases text = true) : HasCycleFrom P aliases text := by
+  unfold cycleReachable at h
+  obtain ⟨a, ha, hloop⟩ := List.any_eq_true.mp h
+  simp only [List.contains_eq_mem, decide_eq_true_eq] at hloop
+  -- a walk from the text to `a`
+  have h1 : ∃ w1, Walk P aliases text w1 ∧ w1.getLast? = some a := by
+    unfold reachable at ha
+    rcases closure_mem _ _ _ ha with h' | ⟨s, hs, hr⟩
+    · rcases addNew_mem h' with h'' | h''
+      · cases h''
+      · exact ⟨[a], .one h'', rfl⟩
+    · rcases addNew_mem hs with h'' | h''
+      · cases h''
+      · obtain ⟨d, w, hd, hw, haw⟩ := walk_of_reaches hr
+        obtain ⟨w', hw', hl⟩ := walk_prefix_to hw haw
+        refine ⟨s :: w', .cons h'' hd hw', ?_⟩
+        cases w' with
+        | nil => cases hw'
+        | cons y ys => simpa [List.getLast?_cons_cons] using hl
+  -- a walk from the definition of `a` back to `a`
+  have h2 : Reaches P aliases a a := by
+    rcases closure_mem _ _ _ hloop with h' | ⟨s, hs, hr⟩
+    · rcases addNew_mem h' with h'' | h''
+      · cases h''
+      · exact .step h''
+    · rcases addNew_mem hs with h'' | h''
+      · cases h''
+      · exact .trans h'' hr
+  obtain ⟨w1, hw1, hl1⟩ := h1
+  obtain ⟨da, w2, hda, hw2, haw2⟩ := walk_of_reaches h2
+  obtain ⟨w2', hw2', hl2⟩ := walk_prefix_to hw2 haw2
+  refine ⟨w1 ++ w2', walk_append hw1 hl1 hda hw2', ?_⟩
+  intro hnd
+  exact (List.nodup_append.mp hnd).2.2 a (getLast?_mem hl1) a (getLast?_mem hl2) rfl
+
+/-- … hence an accepted rule passes it (the clause `cycSpec … accepted` of the oracle). -/
+theorem accepted_not_cycleReachable (P : Prims) (aliases : List (Str × Str)) (rule : Str)
+    (r : Str × List (Nat × Field)) (h : ruleSource P aliases rule = .ok r) :
+    cycleReachable P aliases rule = false := by
+  cases hc : cycleReachable P aliases rule with
+  | false => rfl
+  | true => exact absurd (cycleReachable_sound P aliases rule hc) (accepted_acyclic P aliases rule r h)
+
 /-! ## (ii) the regex source of a rule: anchored concatenation, one named group per capture
 
   A *flat* rule is verbatim text interleaved with placeholders whose matcher is an alias with a
@@ -245,6 +292,37 @@ theorem flat_rule_captures (P : Prims) (E : Engine) (r : Rule E) (input : Str)
 theorem specFrom_numbered (items : List SItem) : Numbered (specFrom 0 items).2 := by
   unfold Numbered
   rw [specFrom_keys items 0, List.range_eq_range']
+
+/-- (iv, reference semantics) **captured fields hold matched substrings**: every capture the
+    reference matcher reports — for every expression of the subset, nested groups, greedy or lazy
+    repetition, any alternative taken — is a contiguous substring of the input. -/
+theorem captures_are_substrings (re : Rx.Re) (input : Str) (caps : Rx.Caps)
+    (h : Rx.search re input = some caps) : ∀ nt ∈ caps, nt.2 <:+: input :=
+  Rx.searchFrom_ok input none caps (List.suffix_refl _) h
+
+/-- the text a rule stores for `grok<i>` is a substring of the input (reference engine). -/
+theorem stored_text_is_substring (re : Rx.Re) (input : Str) (caps : List (Str × Option Str))
+    (h : Rx.refCaptures re input = some caps) (i : Nat) : textOf caps i <:+: input := by
+  unfold Rx.refCaptures at h
+  split at h
+  · cases h
+  · rename_i rc hrc
+    simp only [Option.some.injEq] at h
+    subst h
+    unfold textOf capText
+    split
+    · rename_i nm t hfind
+      have hmem := List.mem_of_find?_eq_some hfind
+      obtain ⟨n, _, hn⟩ := List.mem_map.mp hmem
+      simp only [Prod.mk.injEq] at hn
+      obtain ⟨_, hn2⟩ := hn
+      cases hf : rc.find? (fun kv => kv.1 = n) with
+      | none => simp [hf] at hn2
+      | some kv =>
+        simp only [hf, Option.map_some, Option.some.injEq] at hn2
+        subst hn2
+        exact captures_are_substrings re input rc hrc kv (List.mem_of_find?_eq_some hf)
+    · exact List.nil_infix
 
 /-! ### the filters' own laws -/
 
